@@ -127,7 +127,7 @@ fn main() {
     }
     // gathered output
     let max = if thorough { 3 } else { 2 };
-    for members in combi::subsets(gatherenum::C07_POOL, 1, max) {
+    for members in combi::subsets(9, 1, max) {
         for cfg in gatherenum::configs() {
             let mut gathers = 0;
             let mut results: Vec<Vec<MetricFamily>> = vec![];
